@@ -105,6 +105,8 @@ def main():
                                     "wall_s": round(time.time() - t0, 1)})
     finally:
         sh("git checkout -q -- . && rm -rf _build", cwd=wt)
+        # the checks rewrote the generated Lean/header files from the scratch tree: restore them from /repo
+        sh("python3 tools/gen_all.py", cwd=VERIF, timeout=1800)
         shutil.rmtree("/var/tmp/xmpverif-seed-" + a.name, ignore_errors=True)
     meta["caught_by"] = sorted({r["check"] for r in meta["ran"] if r["exit"] == 1})
     dst = os.path.join(VERIF, "seeded", a.name)
